@@ -385,7 +385,7 @@ META["C10"] = {
 
 META["C12"] = {
     "title": "BehaviorSubject hands every new subscriber the current value first",
-    "rule": "sequential part: random histories of length <= 10 quick / <= 24 thorough over next / next_by / clone / subscribe / unsubscribe / peek / complete / error on BehaviorSubject over Subject and over SubjectThreads, <= 3 subscribers, compared step by step with a model (next_by also with a function that itself subscribes a new subscriber before returning: the newcomer gets the value current at that moment, then f's result) (first item of a new subscriber = most recent value passed to any clone, peek() = that value, next_by(f) emits f(that value), every later item exactly once); non-trivial: a subscriber joined after at least one next. Thread part: 2-3 producer threads and late subscribers on BehaviorSubject<_, SubjectThreads> under the baton scheduler: at quiescence peek() must equal the last item of the order observed by the always-present subscriber, a late subscriber's sequence must be [v] followed by the suffix of that order that follows v, and the always-present subscriber must have received every item whose next() returned exactly once (no terminal or unsubscribe is scripted); every other item is emitted through next_by(|_| item); the same producers also run free on OS threads with seeded jitter at the lock points. distinct = hash(history) / hash(scenario, schedule).",
+    "rule": "sequential part: random histories of length <= 10 quick / <= 24 thorough over next / next_by / clone / subscribe / unsubscribe / peek / complete / error on BehaviorSubject over Subject and over SubjectThreads, <= 3 subscribers, compared step by step with a model (subscribers are also created whose callback calls peek() while it is handed its FIRST item, i.e. from inside the replay that subscribing performs; next_by also with a function that itself subscribes a new subscriber before returning: the newcomer gets the value current at that moment, then f's result) (first item of a new subscriber = most recent value passed to any clone, peek() = that value, next_by(f) emits f(that value), every later item exactly once); non-trivial: a subscriber joined after at least one next. Thread part: 2-3 producer threads and late subscribers on BehaviorSubject<_, SubjectThreads> under the baton scheduler: at quiescence peek() must equal the last item of the order observed by the always-present subscriber, a late subscriber's sequence must be [v] followed by the suffix of that order that follows v, and the always-present subscriber must have received every item whose next() returned exactly once (no terminal or unsubscribe is scripted); every other item is emitted through next_by(|_| item); the same producers also run free on OS threads with seeded jitter at the lock points. distinct = hash(history) / hash(scenario, schedule).",
     "assumptions": COMMON_ASSUME + [
         "after a terminal, a new subscriber may receive the stored value alone or followed by nothing else; the stored value follows the statement (most recent value passed to any clone)",
     ],
